@@ -119,3 +119,6 @@ pub open spec fn offset_unit(u: Unit) -> bool {
 pub open spec fn offset_ok(s: Seq<(Unit, State)>) -> bool {
     forall|i: int| 0 <= i < s.len() && offset_unit(#[trigger] s[i].0) ==> s.len() == 1 && s[i].1.power == 1
 }
+
+/// C19: the unit "has a numerator part" -- some unit with a positive power
+pub open spec fn has_numer(m: Map<Unit, State>) -> bool { exists|k: Unit| m.contains_key(k) && (#[trigger] m[k]).power > 0 }
